@@ -336,11 +336,15 @@ def check_reorder(case, ctx):
         return
     front = [have[n] for n in sel if n in have]
     exp = front + [f for f in fields if f[0] not in sel]
+    arg_before = list(arg) if isinstance(arg, list) else None
     if case["strict"]:
         res = must(nu.reorder_fields, arr, arg)
     else:
         res = must(nu.reorder_fields, arr, arg, strict=False)
     require_result(res, arr, snap, fields, exp, what)
+    if arg_before is not None:
+        # the caller's list of names is his: a list reused for the next table must still say what he wrote
+        require(arg == arg_before, "%s changed the caller's list of names to %r", what, arg)
 
 
 def classify_reorder(case):
